@@ -206,6 +206,8 @@ package keeper
 //@ ensures [only_pools_and_escrow_touched] forall a addr :: a != module("dispute") && a != module("bonded_tokens_pool") && a != module("not_bonded_tokens_pool") ==> bank.bal[a] == old(bank.bal[a])
 
 //@ func (k msgServer).ProposeDispute(goCtx, msg) (resp, err)
+//@ ensures [a_new_dispute_slashes_only_when_its_first_payment_is_the_whole_fee] err == nil && called(SlashAndJailReporter) && !called(AddDisputeRound) ==> has(dispute.Disputes, ret(NextDisputeId, 0)) && dispute.Disputes[ret(NextDisputeId, 0)].FeeTotal == dispute.Disputes[ret(NextDisputeId, 0)].SlashAmount
+//@ ensures [a_fully_paid_new_dispute_is_slashed_at_once] err == nil && !called(AddDisputeRound) && has(dispute.Disputes, ret(NextDisputeId, 0)) && dispute.Disputes[ret(NextDisputeId, 0)].FeeTotal == dispute.Disputes[ret(NextDisputeId, 0)].SlashAmount ==> called(SlashAndJailReporter)
 //@ ensures [only_the_signer_the_staking_pools_and_the_dispute_escrow_change_balance] forall a addr :: a != addrstr(msg.Creator) && a != module("dispute") && a != module("bonded_tokens_pool") && a != module("not_bonded_tokens_pool") ==> bank.bal[a] == old(bank.bal[a])
 //@ requires [validators_have_delegator_shares] forall v bytes :: has(staking.validators, v) ==> staking.validators[v].DelegatorShares > 0
 //@ requires [msg_present] msg != nil && msg.Report != nil
@@ -225,6 +227,8 @@ package keeper
 //@ modifies dispute.*, oracle.Aggregates, reporter.*, staking.*, bank.bal, bank.supply, H_*, A_*
 //@ ensures [payer_record_and_fee_total_grow_by_the_same_amount] err == nil ==> paid(msg.DisputeId, accbytes(msg.Creator)) - old(paid(msg.DisputeId, accbytes(msg.Creator))) == dispute.Disputes[msg.DisputeId].FeeTotal - old(dispute.Disputes[msg.DisputeId].FeeTotal)
 //@ ensures [other_payers_records_untouched] forall i int :: forall a bytes :: !(i == msg.DisputeId && a == accbytes(msg.Creator)) ==> (has(dispute.DisputeFeePayer, pair(i, a)) <==> old(has(dispute.DisputeFeePayer, pair(i, a)))) && dispute.DisputeFeePayer[pair(i, a)] == old(dispute.DisputeFeePayer[pair(i, a)])
+//@ ensures [the_reporter_is_slashed_exactly_when_this_payment_completes_the_fee] err == nil ==> (called(SlashAndJailReporter) <==> dispute.Disputes[msg.DisputeId].FeeTotal == dispute.Disputes[msg.DisputeId].SlashAmount)
+//@ ensures [a_dispute_whose_fee_is_complete_takes_no_more_payments] old(has(dispute.Disputes, msg.DisputeId)) && old(dispute.Disputes[msg.DisputeId].FeeTotal) >= old(dispute.Disputes[msg.DisputeId].SlashAmount) ==> err != nil && !called(SlashAndJailReporter)
 //@ ensures [fee_total_never_exceeds_the_slash_amount] err == nil && old(dispute.Disputes[msg.DisputeId].FeeTotal) <= old(dispute.Disputes[msg.DisputeId].SlashAmount) ==> dispute.Disputes[msg.DisputeId].FeeTotal <= dispute.Disputes[msg.DisputeId].SlashAmount
 
 // ---- tallying a round (C12) ----
